@@ -56,6 +56,18 @@ def g_c20(rng, tier):
         c["label"] = "mixed"
     return c
 
+def g_c17(rng, tier):
+    """as g_any; in a third of the contextual cases a query (predict or predict_expectations) whose contexts have ANOTHER width is placed
+    after a training call - model (vstep) and code reject it alike and leave the generator where it was, which the rest of the history shows"""
+    c = g_any(rng, tier)
+    tr = [i for i, o in enumerate(c["ops"]) if o[0] in ("fit", "pfit") and o[3]]
+    if tr and rng.random() < 0.35:
+        i = rng.choice(tr); d = len(c["ops"][i][3][0])
+        d2 = d + 1 if (d == 1 or rng.random() < 0.5) else d - 1
+        bad = (rng.choice(["pred", "pexp"]), gen.gen_ctx(rng, rng.randint(1, 3), d2))
+        c["ops"] = c["ops"][:i + 1] + [bad] + c["ops"][i + 1:]
+    return c
+
 def g_c04(rng, tier):
     return REL.gen_c04(rng, tier, lints_nbhd=False)
 
@@ -295,10 +307,10 @@ PROPS = {
             "rule": "same simulations as C15 restricted to four metrics; every public attribute after run(): split partition, one prediction per test row, total/train/test statistics "
                     "versus numpy recomputation, train + test = total, default evaluation (incl. neighbourhood statistics when not quick) versus direct recomputation, counts sum "
                     "to the test size, min <= mean <= max; non-trivial = simulation completed"},
-    "C17": {"gen": g_any, "fields": ("out", "arms", "cold", "cfexp", "stats", "status", "nhist"), "functional": False, "n": (150, 2000),
+    "C17": {"gen": g_c17, "fields": ("out", "arms", "cold", "cfexp", "stats", "status", "nhist"), "functional": False, "n": (150, 2000),
             "relations": [("rejected_call_changes_nothing", REL.gen_c17, REL.run_c17, (400, 8000))],
-            "rule": "19 classes of invalid call (length mismatch, non-finite / non-binary rewards, contexts missing / superfluous / wrong row count / wrong width, "
-                    "duplicate / None / NaN / Inf / unknown arms, four bad warm_start arguments, too few rows for k-means, wrong container types, predict without contexts, 1-D contexts) "
+            "rule": "20 classes of invalid call (length mismatch, non-finite / non-binary rewards, contexts missing / superfluous / wrong row count / wrong width, "
+                    "duplicate / None / NaN / Inf / unknown arms, four bad warm_start arguments, too few rows for k-means, wrong container types, predict without contexts, 1-D contexts, a query of another width) "
                     "placed at a random position of a random valid history of any policy combination, followed by the rest of the history plus partial_fit and queries on the bandit "
                     "and on a deep copy taken before the call; non-trivial = the call was rejected"},
     "C20": {"gen": g_c20, "fields": ("out", "arms"), "functional": False, "n": (150, 2000),
